@@ -417,9 +417,10 @@ def _lead(p):
         if fn == "isconstant":
             return a.isconstant() if sp == "method" else numpoly.isconstant(a)
         if fn in ("argmax", "argmin", "amax", "amin"):
+            kd = {"keepdims": True} if p.get("keepdims") and fn in ("amax", "amin") else {}
             if sp == "method":
-                return getattr(a, {"amax": "max", "amin": "min"}.get(fn, fn))()
-            return getattr(numpy if sp == "numpy" else numpoly, fn)(a)
+                return getattr(a, {"amax": "max", "amin": "min"}.get(fn, fn))(**kd)
+            return getattr(numpy if sp == "numpy" else numpoly, fn)(a, **kd)
         raise ValueError(fn)
     return run
 
